@@ -183,7 +183,7 @@ def _broker(job):
             acts = []
             if len(reqs) < 3 and not st["closed"]:
                 acts.append(0)
-            if [r for r in reqs if live(r)] and not st["closed"]:
+            if [r for r in reqs if live(r) or (r.cancelled and r.cid in bc.requests)] and not st["closed"]:
                 acts.append(1)
             if net.pending_attempts():
                 acts.append(2)
@@ -221,9 +221,11 @@ def _broker(job):
                     if exp:
                         ctx.check(r.res[0] is None, "no-reply-request-completes-with-none")
                 elif a == 1:
-                    cands = [r for r in reqs if live(r)]
+                    # an id is "in flight" while its request may still be answered: live requests, and requests cancelled after
+                    # they were written (the broker will answer them; the entry stays in the table until then)
+                    cands = [r for r in reqs if live(r) or (r.cancelled and r.cid in bc.requests)]
                     r = cands[ctx.choose("dup_which", len(cands))] if len(cands) > 1 else cands[0]
-                    ctx.log("duplicate", r.cid)
+                    ctx.log("duplicate", r.cid, "cancelled-but-sent" if r.cancelled else "live")
                     raised = False
                     try:
                         bc.makeRequest(r.cid, r.payload)
